@@ -225,6 +225,33 @@ theorem init_refines (hE : ∀ k v, (E k v).length = 16) (entropy : List UInt8) 
   unfold Model.init Spec.instantiate abs
   simp only [List.nil_append, List.length_nil, Nat.sub_zero, xorBytes_zeros, u1, u2, hz]
 
+theorem xorBytes_take_left (l p : List UInt8) (n : Nat) (h : p.length ≤ n) :
+    xorBytes (l.take n) p = xorBytes l p := by
+  induction l generalizing p n with
+  | nil => simp [xorBytes]
+  | cons b bs ih =>
+    cases p with
+    | nil => simp [xorBytes]
+    | cons c cs =>
+      cases n with
+      | zero => simp at h
+      | succ n =>
+        have := ih cs n (by simpa using h)
+        simp only [xorBytes] at this
+        simp [xorBytes, this]
+
+/-- `randombytes_init(entropy, personalization, _)` with a 48-byte personalization string = CTR_DRBG_Instantiate -/
+theorem init_refines_pers (hE : ∀ k v, (E k v).length = 16) (entropy pers : List UInt8) (hp : pers.length = 48) :
+    abs (Model.init E entropy (some pers)) = Spec.instantiate E entropy pers := by
+  have hz : beNat (List.replicate 16 0) = 0 := by decide
+  obtain ⟨u1, u2, _⟩ := update_refines_some E hE (xorBytes entropy pers) (List.replicate 32 0)
+    (List.replicate 16 0) (by simp)
+  unfold Model.init Spec.instantiate abs
+  simp only [hp, Nat.sub_self, List.replicate_zero, List.append_nil,
+    xorBytes_take_left entropy pers 48 (Nat.le_of_eq hp)]
+  rw [hz] at u1 u2
+  simp only [u1, u2]
+
 /-- the specification run over a request list -/
 def specRun (sp : Spec.St) : List Nat → List (List UInt8) × Spec.St
   | [] => ([], sp)
